@@ -595,6 +595,7 @@ type worker struct {
 }
 
 func (w *worker) Init(b *bigmachine.B) error {
+	verifWorkerInit(w)
 	w.cond = ctxsync.NewCond(&w.mu)
 	w.tasks = make(map[uint64]map[TaskName]*Task)
 	w.taskStats = make(map[uint64]map[TaskName]*stats.Map)
